@@ -570,12 +570,13 @@ end Ops
 /-! ## `staticLimit` -/
 
 /-- An operator wrapped by `staticLimit` never returns a tree exceeding the limit when its inputs
-respected it (for any `key` — `len`, `height` — and any wrapped operator). -/
-theorem staticLimit_sound (key : List Prim → Option Nat) (maxv : Nat)
+respected it (for any `key` — `len`, `height` —, any wrapped operator and however many of the trees are passed
+positionally: every child is measured, also those whose parent came by keyword). -/
+theorem staticLimit_sound (key : List Prim → Option Nat) (maxv : Nat) (npos : Nat)
     (op : List (List Prim) → Tape → R (List (List Prim) × Tape))
     (args outs : List (List Prim)) (tp tp' : Tape)
     (hin : ∀ a ∈ args, ∃ k, key a = some k ∧ k ≤ maxv)
-    (h : staticLimit key maxv op args tp = .ok (outs, tp')) :
+    (h : staticLimit key maxv npos op args tp = .ok (outs, tp')) :
     ∀ o ∈ outs, ∃ k, key o = some k ∧ k ≤ maxv := by
   unfold staticLimit at h
   split at h
@@ -583,11 +584,11 @@ theorem staticLimit_sound (key : List Prim → Option Nat) (maxv : Nat)
   · rename_i new tp1 _
     intro o ho
     rcases (staticLimitLoop_spec new tp1 outs tp' h).2 o ho with h' | ⟨_, h'⟩
-    · exact hin o (List.mem_of_mem_take h')
+    · exact hin o (List.mem_of_mem_take (List.mem_of_mem_take h'))
     · exact h'
 
 example : (∀ a ∈ [[pAdd, pOne, pOne]], ∃ k, (fun l : List Prim => some l.length) a = some k ∧ k ≤ 3) ∧
-    staticLimit (fun l => some l.length) 3
+    staticLimit (fun l => some l.length) 3 1
       (fun args tp => match args with
         | [x] => (match mutInsert x exPs tp with | .ok (r, tp) => .ok ([r], tp) | .error e => .error e)
         | _ => .error .raised)
@@ -597,12 +598,12 @@ example : (∀ a ∈ [[pAdd, pOne, pOne]], ∃ k, (fun l : List Prim => some l.l
 
 /-- … and every returned tree is either one the operator returned or a copy of an argument, so the
 wrapper preserves whatever the operator preserves (well-formedness, typing). -/
-theorem staticLimit_closed (Q : List Prim → Prop) (key : List Prim → Option Nat) (maxv : Nat)
+theorem staticLimit_closed (Q : List Prim → Prop) (key : List Prim → Option Nat) (maxv : Nat) (npos : Nat)
     (op : List (List Prim) → Tape → R (List (List Prim) × Tape))
     (args outs : List (List Prim)) (tp tp' : Tape)
     (hin : ∀ a ∈ args, Q a)
     (hop : ∀ new tp1, op args tp = .ok (new, tp1) → ∀ n ∈ new, Q n)
-    (h : staticLimit key maxv op args tp = .ok (outs, tp')) :
+    (h : staticLimit key maxv npos op args tp = .ok (outs, tp')) :
     (∀ o ∈ outs, Q o) ∧ ∀ new tp1, op args tp = .ok (new, tp1) → outs.length = new.length := by
   unfold staticLimit at h
   split at h
@@ -612,18 +613,18 @@ theorem staticLimit_closed (Q : List Prim → Prop) (key : List Prim → Option 
     refine ⟨?_, ?_⟩
     · intro o ho
       rcases hm o ho with h' | ⟨h', _⟩
-      · exact hin o (List.mem_of_mem_take h')
+      · exact hin o (List.mem_of_mem_take (List.mem_of_mem_take h'))
       · exact hop new tp1 hop1 o h'
     · intro new' tp1' e; rw [hop1] at e; simp at e; rw [← e.1]; exact hl
 
 /-- `staticLimit_closed` instantiated: `mutInsert` under a size limit keeps trees well formed and well typed -/
 example (tp tp' : Tape) (outs : List (List Prim))
-    (h : staticLimit (fun l => some l.length) 3
+    (h : staticLimit (fun l => some l.length) 3 1
       (fun args tp => match args with
         | [x] => (match mutInsert x exPs tp with | .ok (r, tp) => .ok ([r], tp) | .error e => .error e)
         | _ => .error .raised) [[pAdd, pOne, pOne]] tp = .ok (outs, tp')) :
     ∀ o ∈ outs, WellFormed exSub 1 o :=
-  (staticLimit_closed (WellFormed exSub 1) _ 3 _ _ outs tp tp'
+  (staticLimit_closed (WellFormed exSub 1) _ 3 1 _ _ outs tp tp'
     (by intro a ha; simp at ha; subst ha; exact wellFormed_iff_typed.2 ex_ty3)
     (by intro new tp1 hop n hn
         simp only at hop
